@@ -136,6 +136,9 @@ def parse_tlc_output(path: str) -> TlcResult:
                     res.violated, res.error_kind = mi.group(1), "invariant"
                 elif mp:
                     res.violated, res.error_kind = (mp.group(1) or "temporal"), "property"
+                elif line.startswith("Error: Action property") and "is violated" in line:
+                    # a step of the behaviour is not a step of the PROPERTY formula (e.g. a refinement PROPERTY Abs!Spec)
+                    res.violated, res.error_kind = "action-property " + line[len("Error: Action property "):].split(" is violated")[0], "property"
                 elif "Deadlock reached" in line:
                     res.violated, res.error_kind = "deadlock", "deadlock"
                 elif "Postcondition" in line or "postcondition" in line:
